@@ -407,4 +407,28 @@ theorem heldBy_filter (cb : Nat) (store : List Sub) (P : Bytes → Bool) :
   intro e _
   simp [Bool.and_comm]
 
+/-! ### deliveries over a whole inbound QoS 2 exchange -/
+
+theorem deliveriesTo_append (cb : Nat) (a b : List Out) :
+    deliveriesTo cb (a ++ b) = deliveriesTo cb a ++ deliveriesTo cb b := by
+  induction a with
+  | nil => rfl
+  | cons x a ih =>
+    cases x with
+    | deliver cb' p =>
+      simp only [List.cons_append, deliveriesTo]
+      split <;> simp [ih]
+    | _ => simpa [deliveriesTo] using ih
+
+theorem deliveriesTo_exchange {α} (cb id : Nat) (dups : List α) (X : List Out) :
+    deliveriesTo cb (([Out.wrote (.pubrec id)] :: dups.map (fun _ => [Out.wrote (.pubrec id)]) ++
+      [X ++ [Out.wrote (.pubcomp id)]]).flatten) = deliveriesTo cb X := by
+  have h1 : ∀ l : List α, deliveriesTo cb ((l.map (fun _ => [Out.wrote (.pubrec id)])).flatten) = [] := by
+    intro l
+    induction l with
+    | nil => rfl
+    | cons a l ih => simpa [deliveriesTo] using ih
+  simp only [List.cons_append, List.flatten_cons, List.flatten_append, List.flatten_nil, List.append_nil,
+    deliveriesTo_append, h1, List.singleton_append, deliveriesTo, List.nil_append, List.append_nil]
+
 end Mqtt.Proofs.Client
